@@ -394,22 +394,34 @@ def scenario_header_cache_race(res, seed, variant):
         s = w.new_session()
         wrap_transport(s, w)
         tip = d.tip.height
+        h.log(f'header cache length {w.db.header_mc.length} before the request for cp {tip}')
         t = h.client(0, 'blockchain.block.header', [3, tip], ('q',))
         # run until the extension's header read has been submitted, then hold exactly that job:
         # in atomic mode the read happens when the job is stepped, so step it (old headers) but
         # withhold its completion, as a slow worker thread would
-        # the request's first header read fetches the header itself; the second one is the
-        # merkle cache's extension read (MerkleCache._extend_to -> fs_block_hashes -> read_headers).
-        # A hook that runs before every scheduler decision catches it the moment it is submitted.
-        seen, held = set(), []
+        # catch the merkle cache's extension read (MerkleCache._extend_to -> source_func =
+        # fs_block_hashes -> read_headers job) the moment its worker job is submitted: a hook that
+        # runs before every scheduler decision
+        seen, held, flag = set(), [], []
+        mc = w.db.header_mc
+        orig_source = mc.source_func
+
+        async def source(start, count):
+            flag.append(True)
+            try:
+                return await orig_source(start, count)
+            finally:
+                if flag:
+                    flag.pop()
+        mc.source_func = source
         prev_hook = w.loop.on_iteration
 
         def hook(loop):
             prev_hook(loop)
             for j in loop.pending_jobs():
-                if j.name == 'read_headers' and id(j) not in seen:
-                    seen.add(id(j))
-                    if len(seen) == 2 and not held:
+                if j.name == 'read_headers' and not getattr(j, '_seen_by_hook', False):
+                    j._seen_by_hook = True
+                    if flag and not held:
                         held.append(j)
                         if variant == 0:
                             j.step()               # the read sees the old branch ...
